@@ -237,3 +237,72 @@ def r7(ctx):
     for r in c19.r3(ctx):
         r.rule = "C02-R7"
         yield r
+
+
+TRIMS = ("canonical::trim_ascii_start", "canonical::trim_ascii_end", "canonical::trim_ascii")
+
+
+@M.rule("C02-R8", "the trim helpers remove exactly ASCII whitespace (u8::is_ascii_whitespace), on the side their name says")
+def r8(ctx):
+    """Every value of the header carrier passes through trim_ascii: what it strips is part of what the client is taken to
+    have sent. A wider class (Latin-1 NBSP / NEL via char::is_whitespace, control bytes) makes `aws4_request\\xA0` equal
+    to `aws4_request`; a narrower one rejects requests that were accepted."""
+    for nm in TRIMS[:2]:
+        b = ctx.fn(nm)
+        ctx.count()
+        # sibling: forward to the standard library's `<[u8]>::trim_ascii_start / _end` (stabilised since the copy was made)
+        std_ = b.calls(r"^core::slice::(ascii::)?<impl \[u8\]>::%s$" % nm.split("::")[-1])
+        if len(std_) == 1 and len(b.calls()) == 1:
+            od_ = b.origin_def({"move": {"local": 0, "proj": []}})
+            if od_ and od_[0] == "def" and od_[1].get("term") is std_[0][1] and b.origin_def(std_[0][1]["args"][0]) == ("param", 1):
+                yield PASS("C02-R8", "trim/%s" % nm.split("::")[-1], "forwards to <[u8]>::%s (ASCII whitespace by definition)" % nm.split("::")[-1], [loc(b.j["span"])])
+                continue
+        pred = b.calls(r"^core::num::<impl u8>::is_ascii_whitespace$")
+        other = [t["callee"] for bi, t in b.calls(r"::is_\w+$") if not re.search(r"is_ascii_whitespace$|is_empty$|is_some$|is_none$", t["callee"])]
+        bytecmp = [s_ for _, _, s_ in b.stmts() if s_["k"] == "assign" and s_["rv"]["k"] == "binop" and s_["rv"]["op"] in ("Eq", "Ne", "Lt", "Le", "Gt", "Ge") and any((op_const(x) or {}).get("ty") in ("u8", "char") for x in (s_["rv"]["l"], s_["rv"]["r"]))]
+        probs = []
+        if len(pred) != 1 or other or bytecmp:
+            probs.append("the stripped class is not decided by one call of u8::is_ascii_whitespace alone (other predicates: %s, byte comparisons: %d)" % (other, len(bytecmp)))
+        else:
+            # the tested byte is the first (start) / last (end) element; stripping continues while the predicate is TRUE
+            want_end = nm.endswith("_end")
+            od = b.origin_def(pred[0][1]["args"][0])
+            ci = [e for e in (od[1]["proj"] if od and od[0] == "place" else []) if isinstance(e, dict) and "constindex" in e]
+            if ci:
+                if not (ci[0]["constindex"] == (1 if want_end else 0) and bool(ci[0].get("from_end")) == want_end):
+                    probs.append("the tested byte is not the %s one" % ("last" if want_end else "first"))
+            else:
+                sl = b.slice_op(pred[0][1]["args"][0])
+                side = sl.has_call(r"split_last$|slice::<impl \[T\]>::last$|DoubleEndedIterator::next_back$|Iterator::rev$") if want_end else sl.has_call(r"split_first$|slice::<impl \[T\]>::first$|Iterator::next$")
+                if not side:
+                    probs.append("the tested byte is not recognisably the %s one" % ("last" if want_end else "first"))
+            a_, ts, fs = switch_on_call(b, pred[0][0])
+            if a_ is None or ts is None or fs is None:
+                probs.append("the predicate's result is not branched on")
+            else:
+                # on the false edge the function is done (no further shrinking): the loop head is not reachable again
+                head_again = b.reachable(fs, pred[0][0])
+                if head_again or not b.reachable(ts, pred[0][0]):
+                    probs.append("stripping does not continue exactly while the byte IS whitespace")
+        if 1 not in b.slice([0]).params and b.origin_def({"copy": {"local": 0, "proj": []}}) is None:
+            probs.append("the result is not a sub-slice of the argument")
+        if probs:
+            yield VIOL("C02-R8", "trim/%s" % nm.split("::")[-1], "; ".join(probs), where=loc(b.j["span"]))
+        else:
+            yield PASS("C02-R8", "trim/%s" % nm.split("::")[-1], "strips while u8::is_ascii_whitespace(%s byte)" % ("last" if nm.endswith("_end") else "first"), [loc(b.j["span"])])
+    b = ctx.fn(TRIMS[2])
+    ctx.count()
+    cs = b.calls()
+    names = sorted(t["callee"].split("::")[-1] for _, t in cs)
+    od = b.origin_def({"move": {"local": 0, "proj": []}})
+    if names == ["trim_ascii"] and od and od[0] == "def" and od[1]["kind"] == "call" and re.search(r"^core::slice::(ascii::)?<impl \[u8\]>::trim_ascii$", od[1]["term"]["callee"]) and b.origin_def(od[1]["term"]["args"][0]) == ("param", 1):
+        yield PASS("C02-R8", "trim/trim_ascii", "forwards to <[u8]>::trim_ascii", [loc(b.j["span"])])
+        return
+    ok = names == ["trim_ascii_end", "trim_ascii_start"] and od and od[0] == "def" and od[1]["kind"] == "call"
+    if ok:
+        inner = b.origin_def(od[1]["term"]["args"][0])
+        ok = bool(inner and inner[0] == "def" and inner[1]["kind"] == "call" and inner[1]["term"] is not od[1]["term"] and b.origin_def(inner[1]["term"]["args"][0]) == ("param", 1))
+    if not ok:
+        yield VIOL("C02-R8", "trim/trim_ascii", "trim_ascii is not trim_ascii_end(trim_ascii_start(bytes)) (calls: %s)" % names, where=loc(b.j["span"]))
+    else:
+        yield PASS("C02-R8", "trim/trim_ascii", "trim_ascii_end(trim_ascii_start(bytes))", [loc(b.j["span"])])
